@@ -176,7 +176,7 @@ func runC10(ctx *core.Ctx) {
 	ctx.Assume("math/big is correct", "limb vectors outside the closed box are not required to work and are not injected")
 	// Bytes on forms, lattice, windows
 	var ins []elemIn
-	for _, f := range fieldForms(ctx.Quick()) {
+	for _, f := range fieldForms(smoke(ctx)) {
 		ins = append(ins, inOf(&f.E))
 	}
 	two255 := new(big.Int).Lsh(big.NewInt(1), 255)
@@ -253,7 +253,7 @@ func runC10(ctx *core.Ctx) {
 		add("SetBytes", oneByteBall(b))
 	}
 	pairs := [][2]int{{6, 7}, {12, 13}, {19, 20}, {25, 26}, {30, 31}}
-	if ctx.Quick() {
+	if smoke(ctx) {
 		pairs = pairs[:0]
 		// quick: strided products
 		for _, pr := range [][2]int{{6, 7}, {12, 13}, {19, 20}, {25, 26}, {30, 31}} {
@@ -286,7 +286,7 @@ func runC10(ctx *core.Ctx) {
 	add("SetBytes", lengthCases(32))
 	cat := func(a, b []byte) []byte { return append(append([]byte{}, a...), b...) }
 	wb := [][]byte{make([]byte, 64), bytes.Repeat([]byte{0xff}, 64), cat(le(ref.P), le(ref.P)), cat(le(alpha.FieldValues(true)[13]), le(alpha.FieldValues(true)[14]))}
-	if ctx.Quick() {
+	if smoke(ctx) {
 		wb = wb[:3]
 	}
 	for _, b := range wb {
@@ -312,7 +312,7 @@ func runC10(ctx *core.Ctx) {
 }
 
 func tierN64(ctx *core.Ctx, q, t int64) int64 {
-	if ctx.Quick() {
+	if smoke(ctx) {
 		return q
 	}
 	return t
